@@ -173,6 +173,11 @@ macro_rules! sub_layer_shim {
             pub uninterp spec fn answer(&self, request: Request) -> Multiset<RouteRef<T>>;
             #[verifier::external_body]
             pub fn match_request(&self, request: &Request) -> (r: Vec<RouteRef<T>>) ensures ms_of(r@) == self.answer(*request) { unimplemented!() }
+            // C17 contract of a lower layer (verified on that layer's own trace()): the routes stored in its trace forest are its answer
+            #[verifier::external_body]
+            pub fn trace(&self, request: &Request) -> (r: Vec<Trace<T>>) ensures forest_routes(r@, r@.len() as int) == self.answer(*request) { unimplemented!() }
+            #[verifier::external_body]
+            pub fn len(&self) -> usize { unimplemented!() }
         }
         }
     };
@@ -238,6 +243,10 @@ impl<T> SubIp<T> {
     pub uninterp spec fn answer(&self, request: Request) -> Multiset<RouteRef<T>>;
     #[verifier::external_body]
     pub fn match_request(&self, request: &Request) -> (r: Vec<RouteRef<T>>) ensures ms_of(r@) == self.answer(*request) { unimplemented!() }
+    #[verifier::external_body]
+    pub fn trace(&self, request: &Request) -> (r: Vec<Trace<T>>) ensures forest_routes(r@, r@.len() as int) == self.answer(*request) { unimplemented!() }
+    #[verifier::external_body]
+    pub fn len(&self) -> usize { unimplemented!() }
 }
 // regex tree keyed by host patterns (unit `tree`): find returns the matchers whose pattern matches — abstract here
 #[verifier::external_body] #[verifier::accept_recursive_types(V)] pub struct UniqueRegexTreeMap<V> { h: std::marker::PhantomData<V> }
@@ -307,6 +316,74 @@ impl<T> SchemeMatcher<T> {
     //@| outline `routes.extend(matcher.match_request(request));` => `ext_routes(&mut routes, matcher.match_request(request));`
 }
 
+// ---- C17 for the scheme layer. Agreement with match_request needs the layer invariant "no bucket for the empty scheme" (insert
+// files an empty scheme under any_scheme; see unit lay / C02), stated as a precondition here.
+pub type SchItem<'a, T> = (&'a String, &'a SubHost<T>);
+pub open spec fn sch_contrib<T>(rem: Seq<SchItem<T>>, n: int, m: Seq<char>, request: Request, x: RouteRef<T>) -> bool {
+    exists|i: int| 0 <= i < n && (*#[trigger] rem[i].0)@ == m && (*rem[i].1).answer(request).count(x) > 0
+}
+impl<T> SchemeMatcher<T> {
+    //@@ fn src/router/request_matcher/scheme.rs :: impl <T>SchemeMatcher<T> / fn trace -> r
+    //@| opt r5:0
+    //@| opt r6:0
+    //@| requires forall|k: String| self.schemes@.contains_key(k) ==> k@.len() > 0,
+    //@| ensures forall|x: RouteRef<T>| forest_routes(r@, r@.len() as int).count(x) > 0 <==> scheme_answer(*self, *request).count(x) > 0,
+    //@| attr #[verifier::loop_isolation(false)]
+    //@| entry broadcast use vstd::seq_lib::group_to_multiset_ensures; broadcast use vstd::std_specs::hash::group_hash_axioms; broadcast use axiom_string_key_model;
+    //@|     proof { axiom_string_ext(); lit_empty(); }
+    //@| after `let request_scheme = request.scheme().unwrap_or("");`: let ghost any0 = forest_routes(traces@, traces@.len() as int); let ghost mm = self.schemes@; let ghost rm = request_scheme@;
+    //@|     proof { assert(rm == match req_scheme(*request) { Some(s) => s, None => Seq::<char>::empty() }); assert(any0 == self.any_scheme.answer(*request)); }
+    //@| loop 0: invariant 0 <= vf_it0_idx <= vf_it0_rem0.len(), vf_it0.remaining() == vf_it0_rem0.skip(vf_it0_idx), vf_it0_rem0.len() == mm.len(),
+    //@|         forall|x: RouteRef<T>| #[trigger] forest_routes(traces@, traces@.len() as int).count(x) > 0 <==> (any0.count(x) > 0 || sch_contrib(vf_it0_rem0, vf_it0_idx, rm, *request, x)),
+    //@|     decreases mm.len() - vf_it0_idx,
+    //@| loophead 0: let ghost t0 = traces@; let ghost k = vf_it0_idx - 1; let ghost rem = vf_it0_rem0;
+    //@|     proof { assert(scheme == rem[k].0 && matcher == rem[k].1); }
+    //@| looptail 0: proof {
+    //@|     let t = traces@.last();
+    //@|     assert(traces@ =~= t0.push(t));
+    //@|     lemma_forest_push(t0, t); lemma_trace_node(t); lemma_forest_empty::<T>();
+    //@|     let cond = scheme@ == rm;
+    //@|     assert(mm.contains_key(*rem[k].0)); assert(scheme@.len() > 0);
+    //@|     assert forall|x: RouteRef<T>| #[trigger] forest_routes(traces@, traces@.len() as int).count(x) > 0 <==> (any0.count(x) > 0 || sch_contrib(rem, k + 1, rm, *request, x)) by {
+    //@|         if cond { assert(trace_routes(t) == matcher.answer(*request)); } else { assert(trace_routes(t).count(x) == 0); }
+    //@|         if sch_contrib(rem, k + 1, rm, *request, x) {
+    //@|             let i = choose|i: int| 0 <= i < k + 1 && (*#[trigger] rem[i].0)@ == rm && (*rem[i].1).answer(*request).count(x) > 0;
+    //@|             if i < k { assert(sch_contrib(rem, k, rm, *request, x)); }
+    //@|         }
+    //@|         if sch_contrib(rem, k, rm, *request, x) {
+    //@|             let i = choose|i: int| 0 <= i < k && (*#[trigger] rem[i].0)@ == rm && (*rem[i].1).answer(*request).count(x) > 0;
+    //@|             assert((*rem[i].0)@ == rm);
+    //@|         }
+    //@|         if cond && matcher.answer(*request).count(x) > 0 { assert((*rem[k].0)@ == rm); }
+    //@|     }
+    //@| }
+    //@| loopend 0: proof {
+    //@|     let rem = vf_it0_rem0;
+    //@|     lemma_forest_empty::<T>();
+    //@|     let sb = match req_scheme(*request) { Some(s) => scheme_bucket(mm, s, *request), None => Multiset::empty() };
+    //@|     assert forall|x: RouteRef<T>| #[trigger] forest_routes(traces@, traces@.len() as int).count(x) > 0 <==> (any0.count(x) > 0 || sb.count(x) > 0) by {
+    //@|         if sch_contrib(rem, rem.len() as int, rm, *request, x) {
+    //@|             let i = choose|i: int| 0 <= i < rem.len() && (*#[trigger] rem[i].0)@ == rm && (*rem[i].1).answer(*request).count(x) > 0;
+    //@|             let key = *rem[i].0;
+    //@|             assert(mm.contains_key(key) && mm[key] == *rem[i].1);
+    //@|             assert(req_scheme(*request) is Some);
+    //@|             let key2 = choose|key2: String| key2@ == rm && mm.contains_key(key2);
+    //@|             assert(key2 == key);
+    //@|         }
+    //@|         if sb.count(x) > 0 {
+    //@|             let key = choose|key: String| key@ == rm && mm.contains_key(key);
+    //@|             let i = choose|i: int| 0 <= i < rem.len() && *rem[i].0 == key;
+    //@|             assert(mm[*rem[i].0] == *rem[i].1);
+    //@|             assert((*rem[i].0)@ == rm);
+    //@|         }
+    //@|     }
+    //@|     assert(scheme_answer(*self, *request) =~= any0.add(sb));
+    //@| }
+    //@| before `if !request_scheme.is_empty() && !self.schemes.contains_key(request_scheme) {`: let ghost t_end = traces@;
+    //@| exit proof { if traces@.len() > t_end.len() { let t = traces@.last(); assert(traces@ =~= t_end.push(t)); lemma_forest_push(t_end, t); lemma_trace_node(t); lemma_forest_empty::<T>(); assert(forest_routes(traces@, traces@.len() as int) =~= forest_routes(t_end, t_end.len() as int)); } }
+    //@| replace `scheme == request_scheme` => `*scheme == *request_scheme` :: `&String == &str` is defined by std as the comparison of the referents; Verus has no spec for the reference impl
+}
+
 // ================================================================ ip layer (C01)
 #[verifier::external_body] pub broadcast proof fn axiom_routeip_key_model2() ensures #[trigger] obeys_key_model::<RouteIp>() {}
 //@@ rename MethodMatcher SubMethod
@@ -371,6 +448,73 @@ impl<T> IpMatcher<T> {
     //@| outline `routes.extend(matcher.match_request(request));` => `ext_routes(&mut routes, matcher.match_request(request));`
 }
 
+#[verifier::external_body] pub fn outl_ip_to_string(a: &IpAddr) -> String { /* verbatim: remote_addr.to_string() */ unimplemented!() }
+#[verifier::external_body] pub fn outl_routeip_to_string(a: &RouteIp) -> String { /* verbatim: ip_cidr.to_string() */ unimplemented!() }
+// a trace node that is not a Storage node stores exactly what its children store
+pub proof fn lemma_trace_node<T>(t: Trace<T>)
+    requires !(t.info is Storage),
+    ensures trace_routes(t) == forest_routes(t.children@, t.children@.len() as int),
+{ assert(Multiset::<RouteRef<T>>::empty().add(forest_routes(t.children@, t.children@.len() as int)) =~= forest_routes(t.children@, t.children@.len() as int)); }
+pub proof fn lemma_forest_empty<T>()
+    ensures forest_routes(Seq::<Trace<T>>::empty(), 0) == Multiset::<RouteRef<T>>::empty(),
+{}
+impl<T> IpMatcher<T> {
+    // C17, ip layer: the routes in the trace forest are exactly those match_request returns (same right-hand side)
+    //@@ fn src/router/request_matcher/ip.rs :: impl <T>IpMatcher<T> / fn trace -> r
+    //@| opt r5:0
+    //@| opt r6:0
+    //@| ensures forall|x: RouteRef<T>| forest_routes(r@, r@.len() as int).count(x) > 0 <==> (self.no_matcher.answer(*request).count(x) > 0
+    //@|     || (request.remote_addr matches Some(addr) && exists|ip: RouteIp| self.matchers@.contains_key(ip) && sat_ip(ip, addr) && #[trigger] self.matchers@[ip].answer(*request).count(x) > 0)),
+    //@| attr #[verifier::loop_isolation(false)]
+    //@| entry broadcast use vstd::seq_lib::group_to_multiset_ensures; broadcast use vstd::std_specs::hash::group_hash_axioms; broadcast use axiom_routeip_key_model2;
+    //@| loopbefore 0: let ghost any0 = forest_routes(traces@, traces@.len() as int); let ghost gm = self.matchers@; let ghost addr = *remote_addr;
+    //@| loop 0: invariant 0 <= vf_it0_idx <= vf_it0_rem0.len(), vf_it0.remaining() == vf_it0_rem0.skip(vf_it0_idx), vf_it0_rem0.len() == gm.len(),
+    //@|         forall|x: RouteRef<T>| #[trigger] forest_routes(traces@, traces@.len() as int).count(x) > 0 <==> (any0.count(x) > 0 || ip_contrib(vf_it0_rem0, vf_it0_idx, addr, *request, x)),
+    //@|     decreases gm.len() - vf_it0_idx,
+    //@| loophead 0: let ghost t0 = traces@; let ghost k = vf_it0_idx - 1; let ghost rem = vf_it0_rem0;
+    //@|     proof { assert(ip_cidr == rem[k].0 && matcher == rem[k].1); }
+    //@| looptail 0: proof {
+    //@|     let t = traces@.last();
+    //@|     assert(traces@ =~= t0.push(t));
+    //@|     lemma_forest_push(t0, t);
+    //@|     lemma_trace_node(t);
+    //@|     lemma_forest_empty::<T>();
+    //@|     assert forall|x: RouteRef<T>| #[trigger] forest_routes(traces@, traces@.len() as int).count(x) > 0 <==> (any0.count(x) > 0 || ip_contrib(rem, k + 1, addr, *request, x)) by {
+    //@|         if sat_ip(*ip_cidr, addr) { assert(trace_routes(t) == matcher.answer(*request)); } else { assert(trace_routes(t).count(x) == 0); }
+    //@|         if ip_contrib(rem, k + 1, addr, *request, x) {
+    //@|             let i = choose|i: int| 0 <= i < k + 1 && sat_ip(*#[trigger] rem[i].0, addr) && (*rem[i].1).answer(*request).count(x) > 0;
+    //@|             if i < k { assert(ip_contrib(rem, k, addr, *request, x)); }
+    //@|         }
+    //@|         if ip_contrib(rem, k, addr, *request, x) {
+    //@|             let i = choose|i: int| 0 <= i < k && sat_ip(*#[trigger] rem[i].0, addr) && (*rem[i].1).answer(*request).count(x) > 0;
+    //@|             assert(sat_ip(*rem[i].0, addr));
+    //@|         }
+    //@|         if sat_ip(*ip_cidr, addr) && matcher.answer(*request).count(x) > 0 { assert(sat_ip(*rem[k].0, addr)); }
+    //@|     }
+    //@| }
+    //@| loopend 0: proof {
+    //@|     let rem = vf_it0_rem0;
+    //@|     assert forall|x: RouteRef<T>| ip_contrib(rem, rem.len() as int, addr, *request, x) <==> (exists|ip: RouteIp| gm.contains_key(ip) && sat_ip(ip, addr) && #[trigger] gm[ip].answer(*request).count(x) > 0) by {
+    //@|         if ip_contrib(rem, rem.len() as int, addr, *request, x) {
+    //@|             let i = choose|i: int| 0 <= i < rem.len() && sat_ip(*#[trigger] rem[i].0, addr) && (*rem[i].1).answer(*request).count(x) > 0;
+    //@|             let ip = *rem[i].0;
+    //@|             assert(gm.contains_key(ip) && gm[ip] == *rem[i].1);
+    //@|             assert(gm[ip].answer(*request).count(x) > 0);
+    //@|         }
+    //@|         if exists|ip: RouteIp| gm.contains_key(ip) && sat_ip(ip, addr) && #[trigger] gm[ip].answer(*request).count(x) > 0 {
+    //@|             let ip = choose|ip: RouteIp| gm.contains_key(ip) && sat_ip(ip, addr) && #[trigger] gm[ip].answer(*request).count(x) > 0;
+    //@|             let i = choose|i: int| 0 <= i < rem.len() && *rem[i].0 == ip;
+    //@|             assert(gm[*rem[i].0] == *rem[i].1);
+    //@|             assert(sat_ip(*rem[i].0, addr));
+    //@|         }
+    //@|     }
+    //@| }
+    //@| replace `remote_addr.to_string()`#0 => `outl_ip_to_string(remote_addr)` :: Display of a foreign type; trace text only
+    //@| replace `remote_addr.to_string()`#1 => `outl_ip_to_string(remote_addr)` :: Display of a foreign type; trace text only
+    //@| replace `ip_cidr.to_string()`#0 => `outl_routeip_to_string(ip_cidr)` :: Display impl not extracted; trace text only
+    //@| replace `ip_cidr.to_string()`#1 => `outl_routeip_to_string(ip_cidr)` :: Display impl not extracted; trace text only
+}
+
 // ================================================================ method layer (C01)
 #[verifier::external_body] pub broadcast proof fn axiom_vecstring_key_model() ensures #[trigger] obeys_key_model::<Vec<String>>() {}
 //@@ rename HeaderMatcher SubHeader
@@ -381,7 +525,7 @@ pub open spec fn list_has(ms: Seq<String>, m: Seq<char>) -> bool { exists|i: int
 // assumed: membership of the method name in the list
 #[verifier::external_body]
 pub fn outl_methods_contains(methods: &Vec<String>, method: &str) -> (r: bool) ensures r == list_has(methods@, method@)
-{ /* verbatim: methods.contains(&request.method().into()) */ methods.contains(&method.into()) }
+{ /* verbatim: methods.contains(&request.method().into()) | methods.contains(&request_method.into()) */ methods.contains(&method.into()) }
 pub open spec fn method_bucket<T>(m: Map<String, SubHeader<T>>, s: Seq<char>, request: Request) -> Multiset<RouteRef<T>> {
     if exists|key: String| key@ == s && m.contains_key(key) { let key = choose|key: String| key@ == s && m.contains_key(key); m[key].answer(request) } else { Multiset::empty() }
 }
@@ -450,6 +594,118 @@ impl<T> MethodMatcher<T> {
     //@| outline `routes.extend(matcher.match_request(request));`#1 => `ext_routes(&mut routes, matcher.match_request(request));`
 }
 
+// ---- C17 for the method layer
+pub assume_specification [<std::string::String as PartialEq<str>>::eq] (a: &std::string::String, b: &str) -> (r: bool) ensures r == (a@ == b@);
+pub type MethItem<'a, T> = (&'a String, &'a SubHeader<T>);
+pub open spec fn meth_contrib<T>(rem: Seq<MethItem<T>>, n: int, m: Seq<char>, request: Request, x: RouteRef<T>) -> bool {
+    exists|i: int| 0 <= i < n && (*#[trigger] rem[i].0)@ == m && (*rem[i].1).answer(request).count(x) > 0
+}
+#[verifier::external_body] pub fn outl_vecstring_clone(v: &Vec<String>) -> Vec<String> { /* verbatim: methods.clone() */ v.clone() }
+impl<T> MethodMatcher<T> {
+    //@@ fn src/router/request_matcher/method.rs :: impl <T>MethodMatcher<T> / fn trace -> r
+    //@| opt r5:0
+    //@| opt r6:0
+    //@| opt r5:1
+    //@| opt r6:1
+    //@| ensures forall|x: RouteRef<T>| forest_routes(r@, r@.len() as int).count(x) > 0 <==> (self.any_method.answer(*request).count(x) > 0
+    //@|     || method_bucket(self.methods@, req_method(*request), *request).count(x) > 0
+    //@|     || exists|ms: Vec<String>| self.exclude_methods@.contains_key(ms) && !list_has(ms@, req_method(*request)) && #[trigger] self.exclude_methods@[ms].answer(*request).count(x) > 0),
+    //@| attr #[verifier::loop_isolation(false)]
+    //@| entry broadcast use vstd::seq_lib::group_to_multiset_ensures; broadcast use vstd::std_specs::hash::group_hash_axioms; broadcast use axiom_string_key_model; broadcast use axiom_vecstring_key_model;
+    //@|     proof { axiom_string_ext(); }
+    //@| after `let mut found = false;`: let ghost any0 = forest_routes(traces@, traces@.len() as int); let ghost gm = self.exclude_methods@; let ghost mm = self.methods@; let ghost rm = req_method(*request);
+    //@|     proof { assert(request_method@ == rm); }
+    //@| loop 0: invariant 0 <= vf_it0_idx <= vf_it0_rem0.len(), vf_it0.remaining() == vf_it0_rem0.skip(vf_it0_idx), vf_it0_rem0.len() == gm.len(),
+    //@|         forall|x: RouteRef<T>| #[trigger] forest_routes(traces@, traces@.len() as int).count(x) > 0 <==> (any0.count(x) > 0 || excl_contrib(vf_it0_rem0, vf_it0_idx, *request, x)),
+    //@|     decreases gm.len() - vf_it0_idx,
+    //@| loophead 0: let ghost t0 = traces@; let ghost k = vf_it0_idx - 1; let ghost rem = vf_it0_rem0;
+    //@|     proof { assert(methods == rem[k].0 && matcher == rem[k].1); }
+    //@| looptail 0: proof {
+    //@|     let t = traces@.last();
+    //@|     assert(traces@ =~= t0.push(t));
+    //@|     lemma_forest_push(t0, t); lemma_trace_node(t); lemma_forest_empty::<T>();
+    //@|     let cond = !list_has(methods@, rm);
+    //@|     assert forall|x: RouteRef<T>| #[trigger] forest_routes(traces@, traces@.len() as int).count(x) > 0 <==> (any0.count(x) > 0 || excl_contrib(rem, k + 1, *request, x)) by {
+    //@|         if cond { assert(trace_routes(t) == matcher.answer(*request)); } else { assert(trace_routes(t).count(x) == 0); }
+    //@|         if excl_contrib(rem, k + 1, *request, x) {
+    //@|             let i = choose|i: int| 0 <= i < k + 1 && !list_has((*#[trigger] rem[i].0)@, req_method(*request)) && (*rem[i].1).answer(*request).count(x) > 0;
+    //@|             if i < k { assert(excl_contrib(rem, k, *request, x)); }
+    //@|         }
+    //@|         if excl_contrib(rem, k, *request, x) {
+    //@|             let i = choose|i: int| 0 <= i < k && !list_has((*#[trigger] rem[i].0)@, req_method(*request)) && (*rem[i].1).answer(*request).count(x) > 0;
+    //@|             assert(!list_has((*rem[i].0)@, req_method(*request)));
+    //@|         }
+    //@|         if cond && matcher.answer(*request).count(x) > 0 { assert(!list_has((*rem[k].0)@, req_method(*request))); }
+    //@|     }
+    //@| }
+    //@| loopend 0: proof {
+    //@|     let rem = vf_it0_rem0;
+    //@|     assert forall|x: RouteRef<T>| #[trigger] forest_routes(traces@, traces@.len() as int).count(x) > 0 <==> (any0.count(x) > 0 || (exists|ms: Vec<String>| gm.contains_key(ms) && !list_has(ms@, req_method(*request)) && #[trigger] gm[ms].answer(*request).count(x) > 0)) by {
+    //@|         if excl_contrib(rem, rem.len() as int, *request, x) {
+    //@|             let i = choose|i: int| 0 <= i < rem.len() && !list_has((*#[trigger] rem[i].0)@, req_method(*request)) && (*rem[i].1).answer(*request).count(x) > 0;
+    //@|             let ms = *rem[i].0;
+    //@|             assert(gm.contains_key(ms) && gm[ms] == *rem[i].1);
+    //@|             assert(gm[ms].answer(*request).count(x) > 0);
+    //@|         }
+    //@|         if exists|ms: Vec<String>| gm.contains_key(ms) && !list_has(ms@, req_method(*request)) && #[trigger] gm[ms].answer(*request).count(x) > 0 {
+    //@|             let ms = choose|ms: Vec<String>| gm.contains_key(ms) && !list_has(ms@, req_method(*request)) && #[trigger] gm[ms].answer(*request).count(x) > 0;
+    //@|             let i = choose|i: int| 0 <= i < rem.len() && *rem[i].0 == ms;
+    //@|             assert(gm[*rem[i].0] == *rem[i].1);
+    //@|             assert(!list_has((*rem[i].0)@, req_method(*request)));
+    //@|         }
+    //@|     }
+    //@| }
+    //@| before `for (method, matcher) in &self.methods {`: let ghost mid0 = forest_routes(traces@, traces@.len() as int);
+    //@| loop 1: invariant 0 <= vf_it1_idx <= vf_it1_rem0.len(), vf_it1.remaining() == vf_it1_rem0.skip(vf_it1_idx), vf_it1_rem0.len() == mm.len(),
+    //@|         forall|x: RouteRef<T>| #[trigger] forest_routes(traces@, traces@.len() as int).count(x) > 0 <==> (mid0.count(x) > 0 || meth_contrib(vf_it1_rem0, vf_it1_idx, rm, *request, x)),
+    //@|     decreases mm.len() - vf_it1_idx,
+    //@| loophead 1: let ghost t0 = traces@; let ghost k = vf_it1_idx - 1; let ghost rem = vf_it1_rem0;
+    //@|     proof { assert(method == rem[k].0 && matcher == rem[k].1); }
+    //@| looptail 1: proof {
+    //@|     let t = traces@.last();
+    //@|     assert(traces@ =~= t0.push(t));
+    //@|     lemma_forest_push(t0, t); lemma_trace_node(t); lemma_forest_empty::<T>();
+    //@|     let cond = method@ == rm;
+    //@|     assert forall|x: RouteRef<T>| #[trigger] forest_routes(traces@, traces@.len() as int).count(x) > 0 <==> (mid0.count(x) > 0 || meth_contrib(rem, k + 1, rm, *request, x)) by {
+    //@|         if cond { assert(trace_routes(t) == matcher.answer(*request)); } else { assert(trace_routes(t).count(x) == 0); }
+    //@|         if meth_contrib(rem, k + 1, rm, *request, x) {
+    //@|             let i = choose|i: int| 0 <= i < k + 1 && (*#[trigger] rem[i].0)@ == rm && (*rem[i].1).answer(*request).count(x) > 0;
+    //@|             if i < k { assert(meth_contrib(rem, k, rm, *request, x)); }
+    //@|         }
+    //@|         if meth_contrib(rem, k, rm, *request, x) {
+    //@|             let i = choose|i: int| 0 <= i < k && (*#[trigger] rem[i].0)@ == rm && (*rem[i].1).answer(*request).count(x) > 0;
+    //@|             assert((*rem[i].0)@ == rm);
+    //@|         }
+    //@|         if cond && matcher.answer(*request).count(x) > 0 { assert((*rem[k].0)@ == rm); }
+    //@|     }
+    //@| }
+    //@| loopend 1: proof {
+    //@|     let rem = vf_it1_rem0;
+    //@|     lemma_forest_empty::<T>();
+    //@|     assert forall|x: RouteRef<T>| #[trigger] forest_routes(traces@, traces@.len() as int).count(x) > 0 <==> (mid0.count(x) > 0 || method_bucket(mm, rm, *request).count(x) > 0) by {
+    //@|         if meth_contrib(rem, rem.len() as int, rm, *request, x) {
+    //@|             let i = choose|i: int| 0 <= i < rem.len() && (*#[trigger] rem[i].0)@ == rm && (*rem[i].1).answer(*request).count(x) > 0;
+    //@|             let key = *rem[i].0;
+    //@|             assert(mm.contains_key(key) && mm[key] == *rem[i].1);
+    //@|             let key2 = choose|key2: String| key2@ == rm && mm.contains_key(key2);
+    //@|             assert(key2 == key);
+    //@|         }
+    //@|         if method_bucket(mm, rm, *request).count(x) > 0 {
+    //@|             let key = choose|key: String| key@ == rm && mm.contains_key(key);
+    //@|             let i = choose|i: int| 0 <= i < rem.len() && *rem[i].0 == key;
+    //@|             assert(mm[*rem[i].0] == *rem[i].1);
+    //@|             assert((*rem[i].0)@ == rm);
+    //@|         }
+    //@|     }
+    //@| }
+    //@| before `if !found {`: let ghost t_end = traces@;
+    //@| exit proof { if traces@.len() > t_end.len() { let t = traces@.last(); assert(traces@ =~= t_end.push(t)); lemma_forest_push(t_end, t); lemma_trace_node(t); lemma_forest_empty::<T>(); assert(forest_routes(traces@, traces@.len() as int) =~= forest_routes(t_end, t_end.len() as int)); } }
+    //@| replace `method == request_method` => `*method == *request_method` :: `&String == &str` is defined by std as the comparison of the referents; Verus has no spec for the reference impl
+    //@| outline `methods.contains(&request_method.into())` => `outl_methods_contains(methods, request_method)`
+    //@| replace `methods.clone()`#0 => `outl_vecstring_clone(methods)` :: trace text only
+    //@| replace `methods.clone()`#1 => `outl_vecstring_clone(methods)` :: trace text only
+}
+
 // ================================================================ path-and-query layer (C01)
 // regex tree keyed by path patterns (unit `tree` proves find == linear scan of the stored patterns): abstract here
 #[verifier::external_body] #[verifier::accept_recursive_types(V)] pub struct RegexTreeMap<V> { h: std::marker::PhantomData<V> }
@@ -515,6 +771,11 @@ impl<T> SubDt<T> {
     pub uninterp spec fn answer(&self, request: Request) -> Multiset<RouteRef<T>>;
     #[verifier::external_body]
     pub fn match_request(&self, request: &Request) -> (r: Vec<RouteRef<T>>) ensures ms_of(r@) == self.answer(*request) { unimplemented!() }
+    // C17 contract of a lower layer (verified on that layer's own trace()): the routes stored in its trace forest are its answer
+    #[verifier::external_body]
+    pub fn trace(&self, request: &Request) -> (r: Vec<Trace<T>>) ensures forest_routes(r@, r@.len() as int) == self.answer(*request) { unimplemented!() }
+    #[verifier::external_body]
+    pub fn len(&self) -> usize { unimplemented!() }
 }
 //@@ rename DateTimeMatcher SubDt
 //@@ item src/router/request_matcher/header.rs :: struct HeaderMatcher
@@ -760,6 +1021,92 @@ impl<T> HeaderMatcher<T> {
     //@| outline `rules.extend(matcher.match_request(request));` => `ext_routes(&mut rules, matcher.match_request(request));`
 }
 
+// ---- C17 for the header layer: the routes in the trace forest are exactly the routes match_request returns (membership-exact, same
+// right-hand side as match_request's contract), including the memoisation of condition results across groups
+pub proof fn lemma_forest_push<T>(ts: Seq<Trace<T>>, t: Trace<T>)
+    ensures forest_routes(ts.push(t), ts.len() as int + 1) == forest_routes(ts, ts.len() as int).add(trace_routes(t)),
+{
+    let p = ts.push(t);
+    lemma_forest_prefix(p, ts, ts.len() as int);
+}
+pub proof fn lemma_forest_prefix<T>(a: Seq<Trace<T>>, b: Seq<Trace<T>>, k: int)
+    requires 0 <= k <= a.len(), k <= b.len(), forall|i: int| 0 <= i < k ==> a[i] == b[i],
+    ensures forest_routes(a, k) == forest_routes(b, k),
+    decreases k,
+{ if k > 0 { lemma_forest_prefix(a, b, k - 1); } }
+impl<T> HeaderMatcher<T> {
+    //@@ fn src/router/request_matcher/header.rs :: impl <T>HeaderMatcher<T> / fn trace -> r
+    //@| opt r5:0
+    //@| opt r6:0
+    //@| opt r5:1
+    //@| opt r6i:1
+    //@| attr #[verifier::loop_isolation(false)]
+    //@| ensures forall|x: RouteRef<T>| forest_routes(r@, r@.len() as int).count(x) > 0 <==> (self.any_header.answer(*request).count(x) > 0
+    //@|     || exists|cs: BTreeSet<HeaderCondition>| self.condition_groups@.contains_key(cs) && group_true(cs@, *request) && #[trigger] self.condition_groups@[cs].answer(*request).count(x) > 0),
+    //@| entry broadcast use vstd::seq_lib::group_to_multiset_ensures; broadcast use vstd::std_specs::btree::group_btree_axioms; broadcast use axiom_hc_key; broadcast use axiom_hcset_key;
+    //@| loopbefore 0: let ghost any0 = forest_routes(traces@, traces@.len() as int); let ghost gm = self.condition_groups@;
+    //@|     proof { assert(any0 == self.any_header.answer(*request)); }
+    //@| loop 0: invariant 0 <= vf_it0_idx <= vf_it0_rem0.len(), vf_it0.remaining() == vf_it0_rem0.skip(vf_it0_idx), vf_it0_rem0.len() == gm.len(),
+    //@|         forall|c: HeaderCondition| execute_conditions@.contains_key(c) ==> #[trigger] execute_conditions@[c] == cond_true(c, *request),
+    //@|         forall|x: RouteRef<T>| #[trigger] forest_routes(traces@, traces@.len() as int).count(x) > 0 <==> (any0.count(x) > 0 || contrib(vf_it0_rem0, vf_it0_idx, *request, x)),
+    //@|     decreases gm.len() - vf_it0_idx,
+    //@| loophead 0: let ghost traces0 = traces@; proof { assert(conditions == vf_it0_rem0[vf_it0_idx - 1].0 && matcher == vf_it0_rem0[vf_it0_idx - 1].1); }
+    //@| loopbefore 1: let ghost cset = conditions@;
+    //@| loop 1: invariant 0 <= vf_it1_idx <= vf_it1_rem0.len(), vf_it1.remaining() == vf_it1_rem0.skip(vf_it1_idx), vf_it1_rem0.len() == cset.len(), traces@ == traces0,
+    //@|         forall|c: HeaderCondition| execute_conditions@.contains_key(c) ==> #[trigger] execute_conditions@[c] == cond_true(c, *request),
+    //@|         matched == (forall|i: int| 0 <= i < vf_it1_idx ==> cond_true(*#[trigger] vf_it1_rem0[i], *request)), executed == matched,
+    //@|     decreases cset.len() - vf_it1_idx,
+    //@| loophead 1: let ghost m_prev = matched; proof { assert(condition == vf_it1_rem0[vf_it1_idx - 1]); lemma_cover_sound(vf_it1_rem0, cset); assert(cset.contains(*condition)); }
+    //@| looptail 1: proof {
+    //@|     assert(matched == (m_prev && cond_true(*condition, *request)));
+    //@|     if matched { assert forall|i: int| 0 <= i < vf_it1_idx implies cond_true(*#[trigger] vf_it1_rem0[i], *request) by { if i == vf_it1_idx - 1 {} else {} } }
+    //@|     else if m_prev { assert(!cond_true(*vf_it1_rem0[vf_it1_idx - 1], *request)); }
+    //@|     else { let i = choose|i: int| 0 <= i < vf_it1_idx - 1 && !cond_true(*#[trigger] vf_it1_rem0[i], *request); assert(!cond_true(*vf_it1_rem0[i], *request)); }
+    //@| }
+    //@| loopend 1: proof {
+    //@|     if matched {
+    //@|         assert forall|c: HeaderCondition| cset.contains(c) implies cond_true(c, *request) by {
+    //@|             assert(vf_it1_rem0.contains(&c));
+    //@|             let i = choose|i: int| 0 <= i < vf_it1_rem0.len() && vf_it1_rem0[i] == &c;
+    //@|             assert(cond_true(*vf_it1_rem0[i], *request));
+    //@|         }
+    //@|         assert(group_true(cset, *request));
+    //@|         lemma_contrib_true(vf_it0_rem0, vf_it0_idx, *request);
+    //@|     } else {
+    //@|         let i = choose|i: int| 0 <= i < vf_it1_rem0.len() && !cond_true(*#[trigger] vf_it1_rem0[i], *request);
+    //@|         lemma_cover_sound(vf_it1_rem0, cset);
+    //@|         assert(cset.contains(*vf_it1_rem0[i]));
+    //@|         assert(!group_true(cset, *request));
+    //@|         lemma_contrib_false(vf_it0_rem0, vf_it0_idx, *request);
+    //@|     }
+    //@| }
+    //@| looptail 0: proof {
+    //@|     let t = traces@.last();
+    //@|     assert(traces@ =~= traces0.push(t));
+    //@|     lemma_forest_push(traces0, t);
+    //@|     assert(stored(t) == Multiset::<RouteRef<T>>::empty());
+    //@|     lemma_ms_empty::<T>();
+    //@|     assert(trace_routes(t) =~= forest_routes(t.children@, t.children@.len() as int));
+    //@|     if matched { assert(trace_routes(t) == matcher.answer(*request)); } else { assert(trace_routes(t) =~= Multiset::<RouteRef<T>>::empty()); }
+    //@| }
+    //@| loopend 0: proof {
+    //@|     assert forall|x: RouteRef<T>| contrib(vf_it0_rem0, vf_it0_rem0.len() as int, *request, x) <==> (exists|cs: BTreeSet<HeaderCondition>| gm.contains_key(cs) && group_true(cs@, *request) && #[trigger] gm[cs].answer(*request).count(x) > 0) by {
+    //@|         if contrib(vf_it0_rem0, vf_it0_rem0.len() as int, *request, x) {
+    //@|             let i = choose|i: int| 0 <= i < vf_it0_rem0.len() && group_true((*#[trigger] vf_it0_rem0[i].0)@, *request) && (*vf_it0_rem0[i].1).answer(*request).count(x) > 0;
+    //@|             let cs = *vf_it0_rem0[i].0;
+    //@|             assert(gm.contains_key(cs) && gm[cs] == *vf_it0_rem0[i].1);
+    //@|             assert(gm[cs].answer(*request).count(x) > 0);
+    //@|         }
+    //@|         if exists|cs: BTreeSet<HeaderCondition>| gm.contains_key(cs) && group_true(cs@, *request) && #[trigger] gm[cs].answer(*request).count(x) > 0 {
+    //@|             let cs = choose|cs: BTreeSet<HeaderCondition>| gm.contains_key(cs) && group_true(cs@, *request) && #[trigger] gm[cs].answer(*request).count(x) > 0;
+    //@|             let i = choose|i: int| 0 <= i < vf_it0_rem0.len() && *vf_it0_rem0[i].0 == cs;
+    //@|             assert(gm[*vf_it0_rem0[i].0] == *vf_it0_rem0[i].1);
+    //@|             assert(group_true((*vf_it0_rem0[i].0)@, *request));
+    //@|         }
+    //@|     }
+    //@| }
+}
+
 // ================================================================ date-time layer (C01)
 //@@ item src/router/request_matcher/datetime.rs :: enum DateTimeCondition
 //@| opt keepderive:PartialEq,Eq,PartialOrd,Ord
@@ -892,8 +1239,82 @@ impl<T> DateTimeMatcher<T> {
     //@| outline `rules.extend(matcher.match_request(request));` => `ext_routes(&mut rules, matcher.match_request(request));`
 }
 
+// ---- C17 for the date-time layer (same shape as the header layer)
+impl<T> DateTimeMatcher<T> {
+    //@@ fn src/router/request_matcher/datetime.rs :: impl <T>DateTimeMatcher<T> / fn trace -> r
+    //@| opt r5:0
+    //@| opt r6:0
+    //@| opt r5:1
+    //@| opt r6i:1
+    //@| attr #[verifier::loop_isolation(false)]
+    //@| ensures forall|x: RouteRef<T>| forest_routes(r@, r@.len() as int).count(x) > 0 <==> (self.any_datetime.answer(*request).count(x) > 0
+    //@|     || exists|cs: BTreeSet<DateTimeCondition>| self.condition_groups@.contains_key(cs) && dt_group_true(cs@, *request) && #[trigger] self.condition_groups@[cs].answer(*request).count(x) > 0),
+    //@| entry broadcast use vstd::seq_lib::group_to_multiset_ensures; broadcast use vstd::std_specs::btree::group_btree_axioms; broadcast use axiom_dtc_key; broadcast use axiom_dtcset_key;
+    //@| loopbefore 0: let ghost any0 = forest_routes(traces@, traces@.len() as int); let ghost gm = self.condition_groups@;
+    //@|     proof { assert(any0 == self.any_datetime.answer(*request)); }
+    //@| loop 0: invariant 0 <= vf_it0_idx <= vf_it0_rem0.len(), vf_it0.remaining() == vf_it0_rem0.skip(vf_it0_idx), vf_it0_rem0.len() == gm.len(),
+    //@|         forall|c: DateTimeCondition| execute_conditions@.contains_key(c) ==> #[trigger] execute_conditions@[c] == dt_cond_true(c, *request),
+    //@|         forall|x: RouteRef<T>| #[trigger] forest_routes(traces@, traces@.len() as int).count(x) > 0 <==> (any0.count(x) > 0 || contrib_dt(vf_it0_rem0, vf_it0_idx, *request, x)),
+    //@|     decreases gm.len() - vf_it0_idx,
+    //@| loophead 0: let ghost traces0 = traces@; proof { assert(conditions == vf_it0_rem0[vf_it0_idx - 1].0 && matcher == vf_it0_rem0[vf_it0_idx - 1].1); }
+    //@| loopbefore 1: let ghost cset = conditions@;
+    //@| loop 1: invariant 0 <= vf_it1_idx <= vf_it1_rem0.len(), vf_it1.remaining() == vf_it1_rem0.skip(vf_it1_idx), vf_it1_rem0.len() == cset.len(), traces@ == traces0,
+    //@|         forall|c: DateTimeCondition| execute_conditions@.contains_key(c) ==> #[trigger] execute_conditions@[c] == dt_cond_true(c, *request),
+    //@|         matched == (forall|i: int| 0 <= i < vf_it1_idx ==> dt_cond_true(*#[trigger] vf_it1_rem0[i], *request)), executed == matched,
+    //@|     decreases cset.len() - vf_it1_idx,
+    //@| loophead 1: let ghost m_prev = matched; proof { assert(condition == vf_it1_rem0[vf_it1_idx - 1]); lemma_cover_sound(vf_it1_rem0, cset); assert(cset.contains(*condition)); }
+    //@| looptail 1: proof {
+    //@|     assert(matched == (m_prev && dt_cond_true(*condition, *request)));
+    //@|     if matched { assert forall|i: int| 0 <= i < vf_it1_idx implies dt_cond_true(*#[trigger] vf_it1_rem0[i], *request) by { if i == vf_it1_idx - 1 {} else {} } }
+    //@|     else if m_prev { assert(!dt_cond_true(*vf_it1_rem0[vf_it1_idx - 1], *request)); }
+    //@|     else { let i = choose|i: int| 0 <= i < vf_it1_idx - 1 && !dt_cond_true(*#[trigger] vf_it1_rem0[i], *request); assert(!dt_cond_true(*vf_it1_rem0[i], *request)); }
+    //@| }
+    //@| loopend 1: proof {
+    //@|     if matched {
+    //@|         assert forall|c: DateTimeCondition| cset.contains(c) implies dt_cond_true(c, *request) by {
+    //@|             assert(vf_it1_rem0.contains(&c));
+    //@|             let i = choose|i: int| 0 <= i < vf_it1_rem0.len() && vf_it1_rem0[i] == &c;
+    //@|             assert(dt_cond_true(*vf_it1_rem0[i], *request));
+    //@|         }
+    //@|         assert(dt_group_true(cset, *request));
+    //@|         lemma_contrib_true_dt(vf_it0_rem0, vf_it0_idx, *request);
+    //@|     } else {
+    //@|         let i = choose|i: int| 0 <= i < vf_it1_rem0.len() && !dt_cond_true(*#[trigger] vf_it1_rem0[i], *request);
+    //@|         lemma_cover_sound(vf_it1_rem0, cset);
+    //@|         assert(cset.contains(*vf_it1_rem0[i]));
+    //@|         assert(!dt_group_true(cset, *request));
+    //@|         lemma_contrib_false_dt(vf_it0_rem0, vf_it0_idx, *request);
+    //@|     }
+    //@| }
+    //@| looptail 0: proof {
+    //@|     let t = traces@.last();
+    //@|     assert(traces@ =~= traces0.push(t));
+    //@|     lemma_forest_push(traces0, t);
+    //@|     assert(stored(t) == Multiset::<RouteRef<T>>::empty());
+    //@|     lemma_ms_empty::<T>();
+    //@|     assert(trace_routes(t) =~= forest_routes(t.children@, t.children@.len() as int));
+    //@|     if matched { assert(trace_routes(t) == matcher.answer(*request)); } else { assert(trace_routes(t) =~= Multiset::<RouteRef<T>>::empty()); }
+    //@| }
+    //@| loopend 0: proof {
+    //@|     assert forall|x: RouteRef<T>| contrib_dt(vf_it0_rem0, vf_it0_rem0.len() as int, *request, x) <==> (exists|cs: BTreeSet<DateTimeCondition>| gm.contains_key(cs) && dt_group_true(cs@, *request) && #[trigger] gm[cs].answer(*request).count(x) > 0) by {
+    //@|         if contrib_dt(vf_it0_rem0, vf_it0_rem0.len() as int, *request, x) {
+    //@|             let i = choose|i: int| 0 <= i < vf_it0_rem0.len() && dt_group_true((*#[trigger] vf_it0_rem0[i].0)@, *request) && (*vf_it0_rem0[i].1).answer(*request).count(x) > 0;
+    //@|             let cs = *vf_it0_rem0[i].0;
+    //@|             assert(gm.contains_key(cs) && gm[cs] == *vf_it0_rem0[i].1);
+    //@|             assert(gm[cs].answer(*request).count(x) > 0);
+    //@|         }
+    //@|         if exists|cs: BTreeSet<DateTimeCondition>| gm.contains_key(cs) && dt_group_true(cs@, *request) && #[trigger] gm[cs].answer(*request).count(x) > 0 {
+    //@|             let cs = choose|cs: BTreeSet<DateTimeCondition>| gm.contains_key(cs) && dt_group_true(cs@, *request) && #[trigger] gm[cs].answer(*request).count(x) > 0;
+    //@|             let i = choose|i: int| 0 <= i < vf_it0_rem0.len() && *vf_it0_rem0[i].0 == cs;
+    //@|             assert(gm[*vf_it0_rem0[i].0] == *vf_it0_rem0[i].1);
+    //@|             assert(dt_group_true((*vf_it0_rem0[i].0)@, *request));
+    //@|         }
+    //@|     }
+    //@| }
+}
+
 // ================================================================ traces (C17)
-#[verifier::external_body] pub struct HeaderValueCondition { x: u8 }
+pub type HeaderValueCondition = ValueCondition;
 //@@ item src/router/trace.rs :: struct TraceInfoHeaderCondition
 //@@ item src/router/trace.rs :: struct TraceInfoDateTimeCondition
 //@@ item src/router/trace.rs :: enum TraceInfo
